@@ -56,8 +56,13 @@ def generate(plan) -> None:
     k["fault_free"] = r.random() < 0.15
     k["min_gap"] = 0.05
     zones = sorted(r.sample(["00", "01", "02", "05", "0A", "0B"], r.randrange(1, 4)))
-    k["zones"] = zones
     k["dhw"] = r.random() < 0.3
+    r2 = plan.rng("gen/x2")
+    shadow = sc == "xfer" and r2.random() < 0.2
+    if shadow:  # (needs both the hot water and zone 00, which share index 00 on the wire)
+        k["dhw"] = True
+        zones = sorted(set(zones[1:] + ["00"]))
+    k["zones"] = zones
     ops = plan.d["ops"]
     if sc == "codec":
         # the validator does not cap the switchpoints of a day: some schedules are long enough for 10-20 fragments
@@ -105,9 +110,11 @@ def generate(plan) -> None:
             ops.append({"op": "stall", "at": round(r.uniform(0, horizon), 3), "dur": r.choice([0.05, 0.6, 3.0])})
     # (own stream) a request / write that is echoed by the dongle but not heard by the controller; and a caller that gives up
     # just as the transfer it was queueing behind ends, i.e. around the instant it is handed the per-system lock
-    r2 = plan.rng("gen/x2")
     k["p_unheard"] = 0.0 if ff else r2.choice([0.0, 0.0, 0.1, 0.3])
     k["handover_cancel"] = (not ff) and r2.random() < 0.3
+    # while the hot-water schedule is fetched, another gateway fetches zone 00's: the controller's reply for the same fragment number
+    # of zone 00 (addressed to that other gateway) is on the air just before each of ours
+    k["shadow_zone00"] = (not ff) and shadow
 
 
 def norm(s):
@@ -314,6 +321,15 @@ async def run_xfer(ctx) -> None:
         if quiet[0]:
             return [0.03]
         code = rq_line[37:41]
+        if k("shadow_zone00", False) and code == "0404" and rq_line[:2] == "RQ" and rq_line[48:50] == "23" and history.get("00"):
+            frs0 = pack_schedule("00", json.loads(history["00"][-1][1]))
+            fn = int(rq_line[56:58], 16)
+            if 1 <= fn <= len(frs0):
+                f0 = frs0[fn - 1]
+                pl0 = f"00200008{len(f0) // 2:02X}{fn:02X}{len(frs0):02X}{f0}"
+                hub.count("other_zone_reply_same_fragment_number")
+                deliveries.append((loop.time() + 0.02, "00", history["00"][-1][1]))
+                hub.rx_line(hub.ports["/dev/sim0"], f"RP --- {CTL} {OTHER} --:------ 0404 {len(pl0) // 2:03d} {pl0}", 0.02)
         key = f"x/{code}/{rq_line[46:58]}/{sum(1 for t, l in ctl.rq_log if l == rq_line)}"
 
         def gen(rr):
